@@ -10,7 +10,9 @@ import (
 	"fmt"
 	"math"
 	"math/rand"
+	"net/http"
 	"net/http/httptest"
+	"net/url"
 	"strings"
 	"testing"
 	"testing/synctest"
@@ -479,6 +481,40 @@ func TestC13(t *testing.T) {
 		if fmt.Sprint(want) != fmt.Sprint(got) {
 			res.Violatef("bridge reply ids differ from the request ids", b, "want %v got %v: %s", want, got, body)
 		}
+	}
+
+	// ---- 5b. a bridge whose requests come from a ParseRequest hook (URL query, form fields, another
+	// protocol): the ids the hook supplies are JSON values but not necessarily compact; whatever
+	// the hook hands over, the reply written to the HTTP caller is one line of valid JSON
+	{
+		hb := jhttp.NewBridge(handler.Map{"ok": func(ctx context.Context, req *jrpc2.Request) (any, error) { return "fine", nil }},
+			&jhttp.BridgeOptions{ParseRequest: func(req *http.Request) ([]*jrpc2.ParsedRequest, error) {
+				var out []*jrpc2.ParsedRequest
+				for _, id := range req.URL.Query()["id"] {
+					pr := &jrpc2.ParsedRequest{ID: id, Method: req.URL.Query().Get("m")}
+					if pr.Method == "bad" {
+						pr.Error = &jrpc2.Error{Code: -32600, Message: "refused by the hook"}
+					}
+					out = append(out, pr)
+				}
+				return out, nil
+			}})
+		for _, ids := range [][]string{{"12\n"}, {" 12"}, {"\t\"a\"\r\n"}, {"1", "2\n"}, {"7 "}} {
+			for _, m := range []string{"ok", "nope", "bad"} {
+				q := url.Values{"id": ids, "m": {m}}
+				req := httptest.NewRequest("GET", "http://x/?"+q.Encode(), nil)
+				w := httptest.NewRecorder()
+				hb.ServeHTTP(w, req)
+				body := bytes.TrimRight(w.Body.Bytes(), "\n")
+				in := map[string]any{"hook_ids": ids, "method": m}
+				res.Case(fmt.Sprintf("bridge-hook/%q/%s", ids, m), true, in)
+				res.Evaluations++
+				if w.Code != 200 || !json.Valid(body) || bytes.ContainsAny(body, "\n\r\t") {
+					res.Violatef("bridge reply is not one line of valid JSON", in, "status %d body %q", w.Code, body)
+				}
+			}
+		}
+		hb.Close()
 	}
 
 	// ---- 6. Response.MarshalJSON / SetID through a bridge-like proxy path is covered by 5; direct:
